@@ -229,6 +229,15 @@ def r2_delegation(ctx, tt):
         deco = b.get('decoration_subtokens')
         pds = b.get('pitch_duration_subtokens')
         own = isinstance(pds, ast.Name) and any(isinstance(x, ast.For) and 'pitch_duration_subtokens' in src(x.iter) for f2, x in scope_nodes())
+        if not own:
+            # the same list as one expression: a comprehension over the source token's sub-tokens that drops none of them
+            val = pds
+            if isinstance(pds, ast.Name):
+                for f2, x in scope_nodes():
+                    if isinstance(x, ast.Assign) and len(x.targets) == 1 and F.is_name(x.targets[0], pds.id):
+                        val = x.value
+            items = F.items_of(val) if val is not None else []
+            own = len(items) == 1 and items[0][0] == 'many' and not items[0][3] and src(items[0][2]).endswith('.pitch_duration_subtokens')
         ctx.check(own, 'R2', at, tt.qualname, 'subtokens-from-own-token', 'the new sub-token list is built by iterating the source token\'s pitch_duration_subtokens')
         ctx.check(isinstance(deco, ast.Attribute) and deco.attr == 'decoration_subtokens', 'R2', at, tt.qualname,
                   'decorations-carried-over', 'the signifiers of the source token are carried over',
@@ -240,8 +249,11 @@ def r2_delegation(ctx, tt):
         if isinstance(n, ast.Call) and F.constructed_class(ctx, n, f_) is st:
             b = F.bind_args(n, ctx.prog.find_method(st, '__init__'), True)
             e, c = b.get('encoding'), b.get('category')
-            if isinstance(e, ast.Attribute) and e.attr == 'encoding' and isinstance(c, ast.Attribute) and c.attr == 'category' \
-                    and src(e.value) == src(c.value):
+
+            def leaves(x):
+                return leaves(x.body) + leaves(x.orelse) if isinstance(x, ast.IfExp) else [x]
+            if isinstance(c, ast.Attribute) and c.attr == 'category' \
+                    and any(isinstance(l, ast.Attribute) and l.attr == 'encoding' and src(l.value) == src(c.value) for l in leaves(e)):
                 copies += 1
             elif isinstance(c, ast.Attribute) and c.attr == 'category':
                 pass
